@@ -133,6 +133,7 @@ func cmdCheck(args []string) int {
 		fmt.Printf("govc: no contract, lemma or frame check serves property %s\n", *prop)
 		return 2
 	}
+	addContractPkgs(pkgSet, cc.cs)
 	var pats []string
 	for p := range pkgSet {
 		pats = append(pats, p)
